@@ -35,6 +35,8 @@ pub struct Cfg {
     pub effects: bool,
     /// let `array_set` results flow un-annotated (wildcard array length, known finding)
     pub wildcard_arrays: bool,
+    /// C06: matches with nested patterns (tuples, structs, enums, literals) over random data types
+    pub nested_patterns: bool,
 }
 
 struct StructD {
@@ -296,9 +298,81 @@ impl<'a> Gen<'a> {
                 let i = self.rng.below(2);
                 return format!("array_get({}, {})", arr, i);
             }
+            10 if self.cfg.nested_patterns => {
+                self.feat("match-nested");
+                let st = self.data_ty(2);
+                let s = self.expr(&st, scope, d, pre);
+                let mut arms = String::new();
+                for _ in 0..1 + self.rng.below(4) {
+                    let mut sc = scope.clone();
+                    let p = self.pattern(&st, 2, &mut sc);
+                    let body = self.arm_body(t, &sc, d);
+                    write!(arms, "{} => {}, ", p, body).unwrap();
+                }
+                let body = self.arm_body(t, scope, d);
+                write!(arms, "_ => {}, ", body).unwrap();
+                return format!("match {} {{ {}}}", s, arms);
+            }
             _ => {}
         }
         self.typed_expr(t, scope, d, pre)
+    }
+
+    /// a pattern of type `t` with constructor nesting ≤ `depth`; its variables are added to `sc`
+    fn pattern(&mut self, t: &T, depth: usize, sc: &mut Scope) -> String {
+        let k = self.rng.below(8);
+        if k == 0 {
+            return "_".into();
+        }
+        if k == 1 || depth == 0 && !(Self::is_int(t) || matches!(t, T::Bool | T::Str | T::Unit)) {
+            let v = self.fresh("pv");
+            sc.push((v.clone(), t.clone()));
+            return v;
+        }
+        let d = depth.saturating_sub(1);
+        match t {
+            t if Self::is_int(t) => {
+                self.feat("pat-int");
+                self.int_lit(t)
+            }
+            T::Bool => if self.rng.chance(1, 2) { "true".into() } else { "false".into() },
+            T::Str => {
+                self.feat("pat-str");
+                format!("\"{}\"", ["a", "bc", "", "goml"][self.rng.below(4)])
+            }
+            T::Unit => "()".into(),
+            T::Tuple(ts) => {
+                self.feat("pat-tuple");
+                let ps: Vec<String> = ts.iter().map(|t| self.pattern(t, d, sc)).collect();
+                format!("({})", ps.join(", "))
+            }
+            T::Struct(i) => {
+                self.feat("pat-struct");
+                let fts = self.structs[*i].fields.clone();
+                let ps: Vec<String> = fts.iter().enumerate().map(|(k, ft)| format!("f{}: {}", k, self.pattern(ft, d, sc))).collect();
+                format!("S{} {{ {} }}", i, ps.join(", "))
+            }
+            T::Enum(i) => {
+                self.feat("pat-enum");
+                let vi = self.rng.below(self.enums[*i].variants.len());
+                let payload = self.enums[*i].variants[vi].clone();
+                if payload.is_empty() {
+                    format!("E{}::V{}_{}", i, i, vi)
+                } else {
+                    let ps: Vec<String> = payload.iter().map(|p| self.pattern(p, d, sc)).collect();
+                    format!("E{}::V{}_{}({})", i, i, vi, ps.join(", "))
+                }
+            }
+            T::Opt(inner) => {
+                self.feat("pat-generic-enum");
+                if self.rng.chance(1, 3) { "Opt::Non".into() } else { format!("Opt::Som({})", self.pattern(inner, d, sc)) }
+            }
+            _ => {
+                let v = self.fresh("pv");
+                sc.push((v.clone(), t.clone()));
+                v
+            }
+        }
     }
 
     fn expr_nopre(&mut self, t: &T, scope: &Scope, depth: usize) -> String {
@@ -602,6 +676,43 @@ impl<'a> Gen<'a> {
                     write!(s, "let ({}) = {}; ", pats.join(", "), name).unwrap();
                 }
             }
+            5 | 6 if self.cfg.traits => {
+                // an effectful trait method called for effect in every call form and statement position
+                self.feat("effect-method-call");
+                let recv_ty = if self.rng.chance(1, 2) { T::I32 } else { T::Struct(0) };
+                let mut pre = String::new();
+                let v = self.expr(&recv_ty, sc, depth.min(1), &mut pre);
+                let x = self.fresh("pk");
+                write!(s, "{}let {}: {} = {}; ", pre, x, self.ty_text(&recv_ty), v).unwrap();
+                let call = match self.rng.below(4) {
+                    0 => format!("Poke::poke({})", x),
+                    1 => format!("poke_via({})", x),
+                    2 => {
+                        let d = self.fresh("pd");
+                        write!(s, "let {}: dyn Poke = {}; ", d, x).unwrap();
+                        format!("Poke::poke({})", d)
+                    }
+                    _ => format!("Poke::poke({})", x),
+                };
+                match self.rng.below(5) {
+                    0 => write!(s, "{}; ", call).unwrap(),
+                    1 => write!(s, "let _ = {}; ", call).unwrap(),
+                    2 => {
+                        // tail of a loop body
+                        let c = self.fresh("i");
+                        write!(s, "let {c} = ref(0); while ref_get({c}) < 2 {{ let _ = ref_set({c}, ref_get({c}) + 1); {call} }}; ", c = c, call = call).unwrap();
+                    }
+                    3 => {
+                        // tail of a branch that is the tail of a loop body
+                        let c = self.fresh("i");
+                        write!(s, "let {c} = ref(0); while ref_get({c}) < 2 {{ let _ = ref_set({c}, ref_get({c}) + 1); if ref_get({c}) > 1 {{ {call} }} else {{ () }} }}; ", c = c, call = call).unwrap();
+                    }
+                    _ => {
+                        // tail of a match arm evaluated for effect
+                        write!(s, "let _ = match ref_get(ref(1)) {{ 0 => (), _ => {call}, }}; ", call = call).unwrap();
+                    }
+                }
+            }
             4 if self.cfg.go_stmt => {
                 self.feat("go");
                 let mut pre = String::new();
@@ -731,6 +842,10 @@ impl<'a> Gen<'a> {
                 if self.enums[0].variants[0].is_empty() { "".to_string() } else { format!("({})", vec!["_"; self.enums[0].variants[0].len()].join(", ")) }).unwrap();
             self.show_impls.push(T::Enum(0));
             writeln!(src, "fn show_twice[T: Show](x: T) -> string {{ Show::show(x) + x.show() }}").unwrap();
+            writeln!(src, "trait Poke {{ fn poke(Self) -> unit; }}").unwrap();
+            writeln!(src, "impl Poke for int32 {{ fn poke(self: int32) -> unit {{ string_println(\"poke \" + int32_to_string(self)) }} }}").unwrap();
+            writeln!(src, "impl Poke for S0 {{ fn poke(self: S0) -> unit {{ string_println(\"poke S0\") }} }}").unwrap();
+            writeln!(src, "fn poke_via[T: Poke](x: T) -> unit {{ Poke::poke(x) }}").unwrap();
         }
         // functions; each may call the earlier ones only
         let nf = 2 + self.rng.below(3);
